@@ -12,7 +12,22 @@ Four parts (see run()):
      first instance of a class) — modelled by lean/ColaVerif/Model/Registry.lean;
  (d) the translator harness/translators/scan_inplace_sites.py regenerates
      lean/ColaVerif/Gen/InplaceSites.lean and the Lean gate re-checks ColaVerif.Properties.C18
-     (`C18_sites` is a `decide` over that table).
+     (`C18_sites` is a `decide` over that table).  Round 2: a site whose own slice does not obey the write
+     discipline carries a REASON the scanner established by analysis (caller-side slices of every call
+     site of a private helper / of the backend primitive ending in the IR edge `call`, defining slices of
+     every store to a constructor-owned field, zero reads of a write-only attribute, class-level target);
+     the Lean theorem checks the emitted data — there is no prose allow-list any more, only the named
+     clause identity-to-mutates-receiver.
+
+Tiers of (a): quick = all histories of length <= 2, a STRATIFIED sample of length 3 (every ordered triple of
+the 7 operation kinds, every operation in every position), 60 random histories of length 4-8; thorough =
+EXHAUSTIVE for length <= 3 (32 + 32^2 + 32^3 histories, each on all 26 pool kinds; the 32 continuations of a
+prefix share its evaluation, `run_tree`) and 1500 long ones.  Caller-owned Algorithm objects (CG(x0=...),
+Lanczos(start_vector=...)) are reused across calls and snapshotted like arrays.
+
+A changed /repo never makes the check crash: a scanner / gate / driver failure is reported as
+`VIOLATION ... no-failing-input-found` naming the theorems that no longer check, unless the byte comparison
+finds a concrete failing history.
 
 Comparison is by bytes everywhere (no tolerance): nothing here is a numerical claim.
 """
@@ -275,6 +290,9 @@ SKIP_ATTRS = {"info"}
 SKIP_KWARGS = {"start_vector"}
 
 
+from cola.linalg.algorithm_base import Algorithm as _ALGORITHM  # noqa: E402
+
+
 def struct_snap(v, depth=0):
     """structural (deep) snapshot of a value held by the caller: every attribute of an operator,
     recursively; arrays by bytes"""
@@ -300,6 +318,9 @@ def struct_snap(v, depth=0):
     if hasattr(v, "tocoo") and hasattr(v, "data"):  # scipy sparse matrix held by Sparse
         c = v.tocoo()
         return ("sp", v.shape, snap_array(np.asarray(c.data)), snap_array(np.asarray(c.row)), snap_array(np.asarray(c.col)))
+    if isinstance(v, _ALGORITHM) and depth < 6:
+        # Algorithm objects are callable (alg(A, b)); their attributes (x0, start_vector, tolerances) are caller-owned data
+        return ("obj", type(v).__name__, struct_snap(vars(v), depth + 1))
     if hasattr(v, "__dict__") and not callable(v) and depth < 6 and not isinstance(v, type) \
             and type(v).__module__.startswith("cola"):
         return ("obj", type(v).__name__, struct_snap(vars(v), depth + 1))  # Algorithm dataclasses (CG(x0=...), ...)
@@ -1573,19 +1594,28 @@ def site_reason_ok(r):
 
 
 def failing_theorems(gate_err):
-    """names of the theorems at the error positions of a lake / lean output (file:line:col: error …)"""
+    """names of the theorems at the error positions of a lake / lean output (`error: file:line:col: …` or
+    `file:line:col: error …`).  common.lean_gate keeps only the tail of the build output, so the build of the property module
+    is repeated here (cached apart from the failing files) to read the complete list of errors."""
     import re
+    text = gate_err or ""
+    try:
+        _rc, full = common.lake_build([MODULE])
+        text = full + "\n" + text
+    except Exception:  # noqa: BLE001
+        pass
     names = []
-    for m in re.finditer(r"(ColaVerif/[\w/]+\.lean):(\d+):(\d+):\s*error", gate_err or ""):
-        path, line = os.path.join(common.LEAN_DIR, m.group(1)), int(m.group(2))
+    pat = r"(?:error:\s*(?:\./)*(ColaVerif/[\w/]+\.lean):(\d+):(\d+))|(?:(ColaVerif/[\w/]+\.lean):(\d+):(\d+):\s*error)"
+    for m in re.finditer(pat, text):
+        rel, line = (m.group(1), int(m.group(2))) if m.group(1) else (m.group(4), int(m.group(5)))
         try:
-            src = open(path).read().split("\n")
+            src = open(os.path.join(common.LEAN_DIR, rel)).read().split("\n")
         except OSError:
             continue
         for k in range(min(line, len(src)) - 1, -1, -1):
             t = re.match(r"\s*(?:private\s+)?(?:theorem|lemma|def|example)\s+(\S+)?", src[k])
             if t:
-                nm = f"{t.group(1) or 'example'} ({m.group(1)}:{line})"
+                nm = f"{t.group(1) or 'example'} ({rel}:{line})"
                 if nm not in names:
                     names.append(nm)
                 break
